@@ -388,7 +388,7 @@ type ResolverCase struct {
 	Doc bool
 }
 
-var ResolverMalformed = []string{"", ":", ":53", "localhost", "localhost:53", "example.com", "1.2.3", "1.2.3.4.5", "256.1.1.1", "1.2.3.4:", "1.2.3.4:65536", "1.2.3.4:-1", "1.2.3.4:dns",
+var ResolverMalformed = []string{"", " ", "1.1.1.1 ", " 1.1.1.1", ":", ":53", "localhost", "localhost:53", "example.com", "1.2.3", "1.2.3.4.5", "256.1.1.1", "1.2.3.4:", "1.2.3.4:65536", "1.2.3.4:-1", "1.2.3.4:dns",
 	"1.2.3.4:+53", "1.2.3.4:5 3", "::1", "::1:53", "[::1]", "[::1]:", "[::1]:65536", "[1.2.3.4:53", "1.2.3.4]:53", "[fe80::1%eth0]:53", "01.2.3.4", "1.2.3.4 ", " 1.2.3.4",
 	"[::1]]:53", "[[::1]:53", "[:::1]:53", "[1:2:3:4:5:6:7:8:9]:53", "[12345::]:53", "[1::2::3]:53", "[::g]:53", "[1:2:3:4:5:6:7]:53", "[1:2:3:4:5:6:7:8::]:53", "1.2.3.4:99999999999999999999"}
 
